@@ -6,7 +6,8 @@ typedef struct UserEach { int id; } UserEach;       /* opaque user functors */
 typedef struct UserEachIf { int id; } UserEachIf;
 #define HANDLE_FROM_SP(x) ((Handle){(x)})
 #define VArg_COPY(p) (*(p))
-#define VArg_MOVE(p) (*(p))
+int nondet_int(void);
+#define VArg_MOVE(p) ({ VArg __t = *(p); (p)->id = nondet_int(); __t; })          /* moved-from: unspecified value */
 
 /* Node: rank = position certificate (only compared with < and !=), addStamp / remStamp = ghost clock value
  * at which the node was linked / marked removed */
